@@ -36,6 +36,8 @@ def run(repo, rep):
     _truth_rule(repo, rep, 'C17', 'C17.Z4')
     from ..api_pitfalls import attribute_rule as _attribute_rule
     _attribute_rule(repo, rep, 'C17', 'C17.Z5')
+    from ..api_pitfalls import pairing_rule as _pairing_rule
+    _pairing_rule(repo, rep, 'C17', 'C17.Z6')
     from ..pitfalls import zero_rule as _zero_rule
     _zero_rule(repo, rep, 'C17', 'C17.Z3')
     sc = repo.module('sopclass')
